@@ -14,7 +14,7 @@ TITLE = "outcome is a function of the overhang graph only"
 RULE = ("every (enzyme, vector overhang pair, module multiset, permutation) is enumerated once; non-trivial when the "
         "multiset has >= 2 modules, or the outcome is an error, or a palindromic overhang is on the chain")
 ASSUMPTIONS = [
-    "the same module object is never passed twice; multisets are realised by distinct objects (DESIGN 5.2)",
+    "the same module object is never passed twice; multisets are realised by distinct objects (DESIGN 5.2); record identifiers are distinct, shared, or absent",
     "when several failure reasons hold any admissible MoClo error is accepted (DESIGN 5.3)",
     "MissingModule.start_overhang is compared only when the walk is unambiguous (no two modules with equal starts)",
 ]
@@ -35,7 +35,7 @@ def bounds(tier):
 
 
 def goals(tier):
-    return ["three-modules", "product", "error-InvalidSequence", "error-DuplicateModules", "error-MissingModule", "palindromic-start-on-chain",
+    return ["three-modules", "records-sharing-an-id", "product", "error-InvalidSequence", "error-DuplicateModules", "error-MissingModule", "palindromic-start-on-chain",
             "self-loop-module", "unused-module", "revcomp-starts", "equal-starts", "several-reasons"]
 
 
@@ -58,7 +58,7 @@ def space_size(tier):
         per_vec = 0
         for k in range(1, sp["kmax"] + 1):
             # multisets of size k over m module types, each with all k! orders of distinct objects
-            per_vec += math.comb(m + k - 1, k) * math.factorial(k)
+            per_vec += math.comb(m + k - 1, k) * math.factorial(k) * len(idmodes(sp, k))
         total += w * w * per_vec
     return total
 
@@ -119,11 +119,19 @@ def evaluate(st, scn):
         return None
     model = rm.assembly_outcome(vup, vdown, mods)
     M, V = gen.generic_classes(enz)
+    idmode = scn.get("ids", "distinct")
     v = V(gen.crec(vs[0], "vec"))
-    ents = [M(gen.crec(m[0], "mod%d" % i)) for i, m in enumerate(ms)]
+    if idmode == "distinct":
+        ents = [M(gen.crec(m[0], "mod%d" % i)) for i, m in enumerate(ms)]
+    elif idmode == "same":
+        ents = [M(gen.crec(m[0], "part")) for i, m in enumerate(ms)]          # e.g. variants filed under one accession
+    else:
+        from Bio.Seq import Seq as _Seq
+        from moclo.record import CircularRecord as _CR
+        ents = [M(_CR(_Seq(m[0]))) for i, m in enumerate(ms)]                  # records built without an id
     # (no pre-check of validity: if a well-formed plasmid is rejected the outcome comparison below reports it)
     o = asm.run_assemble(v, [ents[i] for i in perm])
-    ids = {"mod%d" % i: i for i in range(len(mods))}
+    index_of = {id(e): i for i, e in enumerate(ents)}
     if model["kind"] == "product":
         outcome = "product"
         exp_seq = vup + vs[1] + "".join(mods[i][0] + ms[i][1] for i in model["chain"])
@@ -135,11 +143,11 @@ def evaluate(st, scn):
         else:
             if not rm.same_circle(o.seq.upper(), exp_seq.upper()):
                 st.violation("outcome", "wrong-product", scn, exp_seq, o.seq)
-            unused_ids = sorted("mod%d" % i for i in model["unused"])
-            got = [sorted(u) for u in o.attrs["unused"]]
-            if unused_ids:
-                if got != [unused_ids]:
-                    st.violation("warning", "unused-modules-warning-wrong", scn, [unused_ids], got)
+            unused_ix = sorted(model["unused"])
+            got = [sorted(index_of.get(id(x), -1) for x in u) for u in o.attrs.get("unused_objs", [])]
+            if unused_ix:
+                if got != [unused_ix]:
+                    st.violation("warning", "unused-modules-warning-wrong", scn, [unused_ix], got)
             elif got:
                 st.violation("warning", "unused-modules-warning-spurious", scn, [], got)
     else:
@@ -162,11 +170,18 @@ def evaluate(st, scn):
                 if not equal_starts and o.attrs.get("start_overhang", "").upper() != model["stall"]:
                     st.violation("attrs", "missing-module-names-wrong-overhang", scn, model["stall"], o.attrs.get("start_overhang"))
             elif name == "DuplicateModules":
-                d = o.attrs.get("duplicates", [])
-                pair = frozenset(ids.get(x, -1) for x in d)
+                d = o.attrs.get("duplicate_objs", [])
+                pair = frozenset(index_of.get(id(x), -1) for x in d)
                 if len(d) != 2 or pair not in model["conflicts"]:
-                    st.violation("attrs", "duplicates-not-a-conflicting-pair", scn, sorted(sorted(c) for c in model["conflicts"]), d)
+                    st.violation("attrs", "duplicates-not-a-conflicting-pair", scn, sorted(sorted(c) for c in model["conflicts"]), sorted(pair))
     return model, outcome
+
+
+def idmodes(sp, k):
+    """identifier assignments of the module records: distinct ids everywhere; for the k<=2 spaces also one shared id and no id at all"""
+    if sp["kmax"] <= 2 and k >= 2:
+        return ["distinct", "same", "default"]
+    return ["distinct"]
 
 
 def run_unit(unit, st, tier):
@@ -179,8 +194,11 @@ def run_unit(unit, st, tier):
     for k in range(1, sp["kmax"] + 1):
         for multiset in itertools.combinations_with_replacement(range(len(types)), k):
             mods = [types[i] for i in multiset]
-            for perm in itertools.permutations(range(k)):
+            for perm, idmode in [(pm, im) for pm in itertools.permutations(range(k)) for im in idmodes(sp, k)]:
                 scn = dict(enz=enz, vup=vup, vdown=vdown, mods=[list(m) for m in mods], perm=list(perm))
+                if idmode != "distinct":
+                    scn["ids"] = idmode
+                    st.goal("records-sharing-an-id")
                 r = evaluate(st, scn)
                 if r is None:
                     continue
